@@ -23,21 +23,27 @@ class DC:
 NT = namedtuple("NT", "x y")
 
 
-class Money:
-    """a user type registered with a custom encoder/decoder (never picklable: carries a lock)"""
-    def __init__(self, a):
-        import threading
-        self.a = a
-        self._lock = threading.Lock()
+class Wallet:
+    # the registered type is nested in a class: its __qualname__ ("Wallet.Money") differs from its __name__ ("Money"),
+    # and the registry is keyed by the latter
+    class Money:
+        """a user type registered with a custom encoder/decoder (never picklable: carries a lock)"""
+        def __init__(self, a):
+            import threading
+            self.a = a
+            self._lock = threading.Lock()
 
-    def __eq__(self, other):
-        return type(other) is Money and other.a == self.a
+        def __eq__(self, other):
+            return type(other) is Money and other.a == self.a
 
-    def __repr__(self):
-        return f"Money({self.a})"
+        def __repr__(self):
+            return f"Money({self.a})"
 
-    def __reduce__(self):
-        raise TypeError("cannot pickle Money")
+        def __reduce__(self):
+            raise TypeError("cannot pickle Money")
+
+
+Money = Wallet.Money
 
 
 def register_money(rec):
